@@ -526,3 +526,207 @@ Proof.
     rewrite <- (map_map piece_text Some), join_opt_some.
     unfold wrap, print_compact. cbn [print_sep]. reflexivity.
 Qed.
+
+Theorem c_text_correct : forall t v,
+  shape_ok t = true -> wf (erase t) = true -> has_ty (erase t) v = true ->
+  (exists x fs, t = NMsg x fs) ->
+  c_text t (store t v) = Some (print_compact (expected t v)).
+Proof.
+  intros t v Hs Hw Hv [x [fs ->]]. unfold c_text. apply dispatch_correct; auto.
+Qed.
+
+(* ------------------------------------------------------------------------------------ *)
+(* Python                                                                               *)
+(* ------------------------------------------------------------------------------------ *)
+
+Fixpoint pyj_of (j : jtree) : pyj :=
+  match j with
+  | JNum z => PJInt z
+  | JBool b => PJBool b
+  | JList l => PJList (map pyj_of l)
+  | JObj fs => PJDict (map (fun kv => (fst kv, pyj_of (snd kv))) fs)
+  end.
+
+Lemma dumps_pyj_of : forall j, py_dumps (pyj_of j) = POk j.
+Proof.
+  induction j as [z|b|l IH|fs IH] using jtree_ind'; try reflexivity.
+  - cbn [pyj_of py_dumps]. rewrite map_map.
+    rewrite (map_ext_in _ POk) by (intros a Hin; exact (proj1 (Forall_forall _ _) IH a Hin)).
+    now rewrite seq_res_ok.
+  - cbn [pyj_of py_dumps]. rewrite map_map.
+    rewrite (map_ext_in _ POk).
+    2:{ intros [k x] Hin. pose proof (proj1 (Forall_forall _ _) IH (k, x) Hin) as E.
+        cbn [fst snd] in E |- *. now rewrite E. }
+    now rewrite seq_res_ok.
+Qed.
+
+(* the translated prefixes are the documented one *)
+Lemma drop_prefix_documented : dict_drop_prefix = documented_proxy_prefix.
+Proof. reflexivity. Qed.
+Lemma proxy_prefix_documented : proxy_prefix = documented_proxy_prefix.
+Proof. reflexivity. Qed.
+
+Lemma str_mem_app : forall s l1 l2, str_mem s (l1 ++ l2)%list = str_mem s l1 || str_mem s l2.
+Proof.
+  intros s l1 l2. induction l1 as [|x r IH]; [reflexivity|].
+  cbn [str_mem app]. destruct (x =? s)%string; [reflexivity | exact IH].
+Qed.
+
+Lemma dict_set_fresh : forall A k (v : A) d, str_mem k (map fst d) = false ->
+  dict_set k v d = (d ++ [(k, v)])%list.
+Proof.
+  intros A k v d. induction d as [|kv r IH]; intros H; [reflexivity|].
+  cbn [map str_mem] in H. cbn [dict_set app]. destruct (fst kv =? k)%string; [discriminate|].
+  now rewrite IH.
+Qed.
+
+Lemma str_mem_in : forall s l, str_mem s l = true <-> In s l.
+Proof.
+  intros s l. induction l as [|x r IH]; cbn [str_mem In]; [split; [discriminate | tauto]|].
+  destruct (String.eqb_spec x s) as [->|N]; [tauto|]. rewrite IH. split; [tauto|]. intros [E|E]; [congruence | exact E].
+Qed.
+
+Lemma dict_fold : forall A (l acc : list (string * A)),
+  str_nodup (map fst l) = true ->
+  (forall k, In k (map fst l) -> str_mem k (map fst acc) = false) ->
+  fold_left (fun d kv => dict_set (fst kv) (snd kv) d) l acc = (acc ++ l)%list.
+Proof.
+  intros A l. induction l as [|[k v] r IH]; intros acc Hn Hf.
+  - cbn. now rewrite app_nil_r.
+  - cbn [map fst str_nodup] in Hn. apply andb_prop in Hn. destruct Hn as [Hk Hr].
+    cbn [fold_left fst snd]. rewrite dict_set_fresh by (apply Hf; left; reflexivity).
+    rewrite IH; [now rewrite <- app_assoc | exact Hr |].
+    intros k' Hin. rewrite map_app, str_mem_app. cbn [map fst str_mem].
+    rewrite (Hf k') by (right; exact Hin). cbn [orb].
+    destruct (String.eqb_spec k k') as [->|_]; [|reflexivity].
+    apply negb_true_iff in Hk. apply str_mem_in in Hin. congruence.
+Qed.
+
+Lemma dict_of_pairs_nodup : forall A (l : list (string * A)),
+  str_nodup (map fst l) = true -> dict_of_pairs l = l.
+Proof.
+  intros A l H. unfold dict_of_pairs. rewrite dict_fold; auto.
+Qed.
+
+Definition is_enum (t : nty) : bool := match t with NEnum _ _ => true | _ => false end.
+
+(* what one dataclass field contributes to asdict's (name, value) list *)
+Definition pairs_of (a : string * (bool * jtree)) : list (string * pyj) :=
+  if fst (snd a)
+  then [(fst a, pyj_of (snd (snd a))); (proxy_prefix ++ fst a, pyj_of (snd (snd a)))]
+  else [(fst a, pyj_of (snd (snd a)))].
+
+Lemma filter_pairs : forall (l : list (string * (bool * jtree))),
+  Forall (fun a => String.prefix documented_proxy_prefix (fst a) = false) l ->
+  filter (fun kv => negb (String.prefix dict_drop_prefix (fst kv))) (List.concat (map pairs_of l)) =
+  map (fun a => (fst a, pyj_of (snd (snd a)))) l.
+Proof.
+  intros l H. induction H as [|a r Ha Hr IH]; [reflexivity|].
+  cbn [map List.concat]. rewrite filter_app, IH. rewrite drop_prefix_documented.
+  unfold pairs_of. destruct (fst (snd a)); cbn [filter fst app].
+  - rewrite Ha. cbn [negb]. rewrite proxy_prefix_documented, prefix_app. reflexivity.
+  - rewrite Ha. reflexivity.
+Qed.
+
+Theorem asdict_correct : forall t,
+  no_byte_array t = true -> no_proxy_names t = true -> names_distinct t = true ->
+  forall v, has_ty (erase t) v = true ->
+  py_asdict t v = POk (pyj_of (expected t v)).
+Proof.
+  induction t as [| |n|n|n ms|u IH|x cap e IH|x fs IH] using nty_ind'; intros Hb Hp Hd v Hv;
+    try reflexivity.
+  - (* alias *) cbn [py_asdict expected]. apply IH; auto.
+  - (* array *)
+    cbn [no_byte_array] in Hb. apply andb_prop in Hb. destruct Hb as [Hb1 Hb2].
+    apply negb_true_iff in Hb1.
+    destruct (has_ty_arr _ _ _ _ Hv) as [l [-> [_ Hall]]].
+    cbn [py_asdict expected vlist pyj_of]. rewrite Hb1.
+    rewrite (map_ext_in _ (fun a => POk (pyj_of (expected e a)))).
+    2:{ intros a Hin. apply IH; auto. exact (proj1 (Forall_forall _ _) Hall a Hin). }
+    rewrite <- (map_map (fun a => pyj_of (expected e a)) POk), seq_res_ok, map_map. reflexivity.
+  - (* message *)
+    destruct (has_ty_msg _ _ _ Hv) as [vs [-> Hall]].
+    cbn [no_byte_array no_proxy_names names_distinct] in Hb, Hp, Hd.
+    apply andb_prop in Hd. destruct Hd as [Hd1 Hd2].
+    cbn [py_asdict expected].
+    set (V := VM vs) in *.
+    set (a := fun f : Z * (string * nty) => (fname f, (is_enum (ftype f), expected (ftype f) (vfield (fnum f) V)))).
+    rewrite (map_ext_in _ (fun f => (fnum f, POk (pairs_of (a f))))).
+    2:{ intros f Hin. f_equal.
+        pose proof (proj1 (Forall_forall _ _) Hall f Hin) as Hf. cbv beta in Hf.
+        pose proof (proj1 (forallb_forall _ _) Hb f Hin) as Hbf. cbv beta in Hbf.
+        pose proof (proj1 (forallb_forall _ _) Hp f Hin) as Hpf. cbv beta in Hpf.
+        apply andb_prop in Hpf. destruct Hpf as [_ Hpf].
+        pose proof (proj1 (forallb_forall _ _) Hd2 f Hin) as Hdf. cbv beta in Hdf.
+        pose proof (proj1 (Forall_forall _ _) IH f Hin Hbf Hpf Hdf _ Hf) as E.
+        unfold a, pairs_of, field_pairs. cbn [fst snd]. rewrite E.
+        destruct (ftype f) as [| |n|n|n ms|u|x' c' e'|x' fs'] eqn:Et; cbn [is_enum]; try reflexivity.
+        cbn [erase has_ty] in Hf. destruct (vfield (fnum f) V) as [|z| |]; try discriminate Hf.
+        cbn [zof]. unfold is_member. rewrite Hf. reflexivity. }
+    rewrite (sorted_payload _ _ _ fnum a (fun x => POk (pairs_of x))).
+    rewrite <- (map_map pairs_of POk), seq_res_ok.
+    set (AS := map snd (sort_fields (map (fun f => (fnum f, a f)) fs))).
+    assert (HAS : Forall (fun x => String.prefix documented_proxy_prefix (fst x) = false) AS).
+    { apply Forall_forall. intros y Hy. unfold AS in Hy. apply in_map_iff in Hy.
+      destruct Hy as [[k y'] [<- Hy]]. apply sort_fields_in in Hy. apply in_map_iff in Hy.
+      destruct Hy as [f [E Hin]]. injection E as _ <-. unfold a. cbn [fst snd].
+      pose proof (proj1 (forallb_forall _ _) Hp f Hin) as Hpf. cbv beta in Hpf.
+      apply andb_prop in Hpf. destruct Hpf as [Hpf _]. now apply negb_true_iff in Hpf. }
+    rewrite (filter_pairs AS HAS).
+    rewrite dict_of_pairs_nodup.
+    + f_equal. cbn [pyj_of]. f_equal.
+      rewrite (sorted_payload _ _ _ fnum a (fun x => (fst x, snd (snd x)))).
+      fold AS. rewrite map_map. reflexivity.
+    + rewrite map_map. cbn [fst].
+      rewrite <- (map_map snd fst) in Hd1.
+      change (map (fun f => (fnum f, (fname f, tt))) fs)
+        with (map (fun f => (fnum f, (fun x : string * (bool * jtree) => (fst x, tt)) (a f))) fs) in Hd1.
+      rewrite (sorted_payload _ _ _ fnum a (fun x => (fst x, tt))) in Hd1. fold AS in Hd1.
+      rewrite map_map in Hd1. cbn [fst] in Hd1. exact Hd1.
+Qed.
+
+Theorem py_tree_correct : forall t v,
+  no_byte_array t = true -> no_proxy_names t = true -> names_distinct t = true ->
+  has_ty (erase t) v = true ->
+  py_tree t v = POk (expected t v).
+Proof.
+  intros t v Hb Hp Hd Hv. unfold py_tree. rewrite asdict_correct by auto. apply dumps_pyj_of.
+Qed.
+
+(* both languages print the same value: the C text is the compact print of the tree that
+   Python's json.dumps writes *)
+Theorem c_eq_py : forall t v,
+  shape_ok t = true -> wf (erase t) = true -> has_ty (erase t) v = true ->
+  (exists x fs, t = NMsg x fs) ->
+  no_byte_array t = true -> no_proxy_names t = true -> names_distinct t = true ->
+  exists s, py_to_json "," ":" t v = POk s /\ c_text t (store t v) = Some s.
+Proof.
+  intros t v Hs Hw Hv Hm Hb Hp Hd. exists (print_compact (expected t v)). split.
+  - unfold py_to_json. rewrite py_tree_correct by auto. reflexivity.
+  - apply c_text_correct; auto.
+Qed.
+
+(* ---- witnesses of the two findings (the faithful model refutes the Python half) ---- *)
+
+Definition bytes_t : nty := NMsg false [(1, ("b", NArr false 1 NByte))].
+Definition bytes_v : val := VM [(1, VL [VZ 7])].
+
+Lemma py_bytearray_refuted :
+  exists t v, shape_ok t = true /\ wf (erase t) = true /\ has_ty (erase t) v = true /\
+              no_proxy_names t = true /\ names_distinct t = true /\ no_byte_array t = false /\
+              py_tree t v = PRaise PyTypeError /\
+              py_asdict t v = POk (PJDict [("b", PJBytes [7])]) /\
+              c_text t (store t v) = Some (print_compact (expected t v)) /\
+              print_compact (expected t v) = "{""b"":[7]}".
+Proof. exists bytes_t, bytes_v. vm_compute. repeat split; reflexivity. Qed.
+
+Definition proxy_t : nty := NMsg false [(1, ("_enum_field_proxy__x", NBool))].
+Definition proxy_v : val := VM [(1, VB true)].
+
+Lemma py_proxy_name_refuted :
+  exists t v, shape_ok t = true /\ wf (erase t) = true /\ has_ty (erase t) v = true /\
+              no_byte_array t = true /\ names_distinct t = true /\ no_proxy_names t = false /\
+              py_tree t v = POk (JObj []) /\
+              expected t v = JObj [("_enum_field_proxy__x", JBool true)] /\
+              c_text t (store t v) = Some (print_compact (expected t v)).
+Proof. exists proxy_t, proxy_v. vm_compute. repeat split; reflexivity. Qed.
